@@ -76,6 +76,7 @@ Theorem canon_is_minimal_rotation seq st canon turns rots :
   In canon rots /\ forall r, In r rots -> leb ckey_cmp canon r = true.
 Proof.
   unfold identifiers_fresh. destruct (negb (length seq =? length st)); [discriminate|].
+  destruct (n_strands seq =? 0); [discriminate|].
   destruct (rot_record (n_strands seq) (seq, st)) as [l|]; cbn [rbind]; [|discriminate].
   destruct (min_key l) as [c|] eqn:M; [|discriminate].
   destruct (last_index c l 0 None); [|discriminate].
@@ -103,6 +104,8 @@ Proof.
   intros GN. pose proof GN as [G N]. unfold identifiers_fresh.
   rewrite (aligned_len x G). cbn [negb].
   destruct x as [sq st]. cbn [fst snd] in *.
+  pose proof (n_strands_nstr (sq, st) GN) as NS0. cbn [fst snd] in NS0.
+  assert (Z0 : (n_strands sq =? 0) = false) by (rewrite NS0; unfold nstr; reflexivity). rewrite Z0.
   pose proof (rotations_record (sq, st) GN) as R. cbn [fst] in R. rewrite R. cbn [rbind].
   destruct (min_key (rotations (sq, st))) as [c|] eqn:M.
   2:{ exfalso. unfold min_key in M.
